@@ -50,6 +50,10 @@ func init() {
 		Stages: []Stage{
 			{Name: "announce", Pkg: "./pkg/station/lib", Run: "^TestVerifC10(Announce|Lifetime)$", Drivers: []string{"lib"}, Exports: []string{"cdtls", "lib"},
 				TimeoutQ: 10 * time.Minute, TimeoutT: 40 * time.Minute},
+			// own child process (the station's redis client is created once per process) and own network namespace (the
+			// real initRedisClient dials the fixed localhost:6379): nothing listens when the first announcement is due
+			{Name: "redis-late", Pkg: "./pkg/station/lib", Run: "^TestVerifC10RedisLate$", Drivers: []string{"lib"}, Exports: []string{"cdtls", "lib"},
+				Netns: true, TimeoutQ: 10 * time.Minute, TimeoutT: 20 * time.Minute},
 		},
 		Post: c10Post,
 	})
@@ -541,14 +545,6 @@ func c10Post(rc *RunCtx) {
 			return // the driver died; that is already reported and its records are incomplete
 		}
 	}
-	recPath := filepath.Join(rc.Work, "announce.0.out", "c10_records.jsonl")
-	fh, err := os.Open(recPath)
-	if err != nil {
-		rc.Errors = append(rc.Errors, fmt.Sprintf("C10: the driver left no records (%v)", err))
-		return
-	}
-	defer fh.Close()
-
 	sh, err := c10BuildShim(repoDir, verifDir, rc.Work)
 	if err != nil {
 		rc.Errors = append(rc.Errors, "C10: detector shim unavailable, nothing can be decided: "+err.Error())
@@ -556,6 +552,24 @@ func c10Post(rc *RunCtx) {
 	}
 	rc.Extra["detector_code"] = "extracted-from-repo"
 	rc.Extra["detector_shim"] = map[string]interface{}{"subscribed_channel": sh.Channel, "rustc": sh.Version, "build_s": sh.BuildS, "items": sh.Items, "sources_sha256": sh.Sources}
+	c10JudgeStage(rc, sh, "announce", true)
+	if len(rc.Errors) == 0 && rc.Only == "" {
+		// the detector channel comes up only after the first announcement was due (own process: the client is a per-process Once)
+		c10JudgeStage(rc, sh, "redis-late", false)
+	}
+}
+
+// c10JudgeStage judges the message records one driver stage left (main = the announce stage, which also carries the
+// lifetime-agreement records).
+func c10JudgeStage(rc *RunCtx, sh *c10Shim, stage string, main bool) {
+	recPath := filepath.Join(rc.Work, stage+".0.out", "c10_records.jsonl")
+	fh, err := os.Open(recPath)
+	if err != nil {
+		rc.Errors = append(rc.Errors, fmt.Sprintf("C10: the %s driver left no records (%v)", stage, err))
+		return
+	}
+	defer fh.Close()
+	clearsBefore, shutdownsBefore := rc.Counts["clear_on_nonempty_map"], rc.Counts["shutdown_clear_on_nonempty_map"]
 
 	// pass 1: records -> shim input
 	var recs []*c10Record
@@ -586,7 +600,7 @@ func c10Post(rc *RunCtx) {
 			recs = append(recs, r)
 		}
 	}
-	os.WriteFile(filepath.Join(rc.Work, "c10_shim.in"), in.Bytes(), 0o644)
+	os.WriteFile(filepath.Join(rc.Work, stage+".c10_shim.in"), in.Bytes(), 0o644)
 
 	cmd := exec.Command(sh.Bin)
 	cmd.Stdin = &in
@@ -597,7 +611,7 @@ func c10Post(rc *RunCtx) {
 		rc.Errors = append(rc.Errors, fmt.Sprintf("C10: the detector shim failed (infrastructure): %v\n%s", err, tail(stderr.String(), 1500)))
 		return
 	}
-	os.WriteFile(filepath.Join(rc.Work, "c10_shim.out"), stdout.Bytes(), 0o644)
+	os.WriteFile(filepath.Join(rc.Work, stage+".c10_shim.out"), stdout.Bytes(), 0o644)
 	rc.Extra["detector_shim_run_s"] = time.Since(t0).Seconds()
 	replies := map[int]map[string]string{}
 	for _, l := range strings.Split(stdout.String(), "\n") {
@@ -619,7 +633,7 @@ func c10Post(rc *RunCtx) {
 	}
 
 	viol := func(sig, msg string, r *c10Record, reply map[string]string) {
-		rc.Violations = append(rc.Violations, Violation{Sig: sig, Msg: msg, Stage: "announce", Mon: "detector-shim", Detail: r.witness(reply)})
+		rc.Violations = append(rc.Violations, Violation{Sig: sig, Msg: msg, Stage: stage, Mon: "detector-shim", Detail: r.witness(reply)})
 	}
 
 	// the station's own lifetimes are what it expires registrations with; the property names their values
@@ -736,7 +750,7 @@ func c10Post(rc *RunCtx) {
 		}
 		// effect on the detector's session map, seen through its own lookup and expiry code
 		if rep["flow"] != "ok" {
-			rc.Incon = append(rc.Incon, fmt.Sprintf("[announce/detector-shim] message %d parses but no flow could be built from the registration (%s)", r.ID, classes))
+			rc.Incon = append(rc.Incon, fmt.Sprintf("["+stage+"/detector-shim] message %d parses but no flow could be built from the registration (%s)", r.ID, classes))
 			continue
 		}
 		if rep["tracked"] != "1" {
@@ -767,7 +781,9 @@ func c10Post(rc *RunCtx) {
 			rc.Samples = append(rc.Samples, map[string]interface{}{"monitor": "detector-shim", "case": r.witness(rep)})
 		}
 	}
-	c10JudgeLife(rc, sh, distinct)
+	if main {
+		c10JudgeLife(rc, sh, distinct)
+	}
 	rc.addDistinct("nontrivial", int64(len(distinct)))
 	var ds []string
 	for k := range distinct {
@@ -777,11 +793,13 @@ func c10Post(rc *RunCtx) {
 	if len(ds) > 40 {
 		ds = append(ds[:40], fmt.Sprintf("… %d more", len(ds)-40))
 	}
-	rc.Extra["classes_seen_sample"] = ds
-	if rc.Counts["shutdown_clear_on_nonempty_map"] == 0 && len(rc.Violations) == nviolBefore && len(rc.Incon) == 0 {
+	if main {
+		rc.Extra["classes_seen_sample"] = ds
+	}
+	if rc.Counts["shutdown_clear_on_nonempty_map"] == shutdownsBefore && len(rc.Violations) == nviolBefore && len(rc.Incon) == 0 {
 		rc.Errors = append(rc.Errors, "C10: no Clear after the station's shutdown sequence met a non-empty session map; the lifecycle scenario was not observed")
 	}
-	if rc.Counts["clear_on_nonempty_map"] == 0 && len(rc.Violations) == nviolBefore {
+	if main && rc.Counts["clear_on_nonempty_map"] == clearsBefore && len(rc.Violations) == nviolBefore {
 		rc.Errors = append(rc.Errors, "C10: no Clear met a non-empty session map; the shutdown half of the property was not observed")
 	}
 }
